@@ -17,6 +17,7 @@ TWO = 'Il,Sd,bX,sF,Di,Lb,xS,fI'                     # two columns of different t
 THREE = 'Ils,SdB,xFi,bLD,sIX'                       # three columns
 FOUR = 'IlsB,SdbX,xFiL,DsIb'                        # four columns
 TAIL = 'I,i,L,l,F,D,S,s,X,x,IL,SX,lsD'              # types whose PLAIN bytes can spell  <footer length> "PAR1"
+STOPTAIL = 'I,i,L,l,F,D,S,s,IL,Sl'                  # flavour 16: the bytes in front of <length> "PAR1" are a tiny well-formed Thrift struct (00 | 01..; 15 00 00 | 03..; 00 00 | 02..; 15 02 00 00 | 04..)
 
 
 def layout_txt(rows, nrg, batch, ps=1):
@@ -37,9 +38,9 @@ def cut(fam, specs, rows, nrg, batch, flavour, codec, om, api=0, stats=1, timeou
     n = specs.count(',') + 1
     return E2('cut/%s/%s' % (OPEN[om], tag(fam, rows, nrg, batch, flavour, codec, api)), H,
               defines=['-DVC_MODE=1', '-DVC_OPEN=%d' % om] + common_defs(specs, rows, nrg, batch, flavour, codec, api, stats, ps),
-              all_lib=True, timeout=timeout, stubs=STUBS, leaks=True, expect_paths_min=40 * n, max_paths=400000, exclude='F-FOOTER-REQUIRED',
+              all_lib=True, timeout=timeout, stubs=STUBS, leaks=True, expect_paths_min=40 * n, max_paths=400000, exclude='F-FOOTER-NO-REQUIRED',
               bounds='concrete tables {%s} (%s content, null pattern %d), %s, %s, writer created by %s, write_statistics=%d; file written by the real writer, then '
-                     'EVERY cut length 0..len-1 (one path each), opened via %s; %s' % (specs, 'tail-like' if flavour >= 8 else 'ordinary', flavour & 7, layout_txt(rows, nrg, batch, ps), codec, API[api], stats, OPEN[om], OUTSIDE))
+                     'EVERY cut length 0..len-1 (one path each), opened via %s; %s' % (specs, ('ordinary', 'tail-like', 'tiny-struct-tail')[flavour >> 3], flavour & 7, layout_txt(rows, nrg, batch, ps), codec, API[api], stats, OPEN[om], OUTSIDE))
 
 
 def sink(fam, specs, rows, nrg, batch, flavour, codec, api=0, timeout=900, ps=1):
@@ -64,7 +65,7 @@ def abort(fam, specs, rows, nrg, batch, flavour, codec, api=0, fault=False, bado
 def tailsym(specs, rows, nrg, batch, trow, codec, om, api=0, timeout=1500):
     return E2('cut-tail-anyL/%s/%s/r%d-g%d-b%d-t%d/%s/%s' % (OPEN[om], specs, rows, nrg, batch, trow, codec, 'file' if api else 'path'), H,
               defines=['-DVC_MODE=4', '-DVC_OPEN=%d' % om, '-DVC_TROW=%d' % trow, '-DREF_MAX_VALUES=32', '-DREF_MAX_PAGES=8'] + common_defs(specs, rows, nrg, batch, 0, codec, api),
-              all_lib=True, timeout=timeout, stubs=STUBS, leaks=True, fork_max=8192, expect_paths_min=25, max_paths=400000, exclude='F-FOOTER-REQUIRED',
+              all_lib=True, timeout=timeout, stubs=STUBS, leaks=True, fork_max=8192, expect_paths_min=25, max_paths=400000, exclude='F-FOOTER-NO-REQUIRED',
               ref=['ref_parquet_read.c', 'ref_parquet_meta.c', 'ref_thrift.c', 'ref_rle.c', 'ref_snappy.c', 'ref_lz4.c', 'ref_hash.c', 'ref_plain_bss.c'],
               bounds='table {%s}, %s, %s: BYTE_ARRAY value of row %d is <L> "PAR1" with EVERY 32-bit L (symbolic); the prefix that ends right behind it, opened via %s, is rejected '
                      'unless the independent reference reader accepts it as a complete Parquet file; %s' % (specs, layout_txt(rows, nrg, batch), codec, trow, OPEN[om], OUTSIDE))
@@ -110,7 +111,9 @@ def obligations(tier):
                 o.append(cut('four', FOUR, rows, nrg, batch, 0, cn, om, api=1 - api, timeout=1500))
             for rows, nrg, batch in (LAYOUTS[:1] if q else LAYOUTS[:3]):
                 o.append(cut('three', THREE, rows, nrg, batch, 0, cn, om, api=om % 2))
+            o.append(cut('stoptail', STOPTAIL, 12, 1, 0, 16, cn, om, api=om % 2))
             if q and cn != 'unc': continue
+            o.append(cut('stoptail', STOPTAIL, 12, 2, 3, 16, cn, om, api=1 - om % 2))
             o.append(cut('allnull', 'b,i,l,f,d,s,x,is', 6, 2, 2, 3, cn, om))
             o.append(cut('nonulls', 'b,i,s,x,ls', 6, 2, 2, 2, cn, om, stats=0))
             o.append(cut('zero-rows', 'I,s,Il', 0, 1, 0, 0, cn, om))
